@@ -6,6 +6,8 @@ import (
 	"os"
 	"path/filepath"
 	"sort"
+	"strings"
+	"sync"
 	"time"
 
 	"verif/batch"
@@ -69,6 +71,7 @@ func RunBatch(run *report.Run, env *Env, states []BState, chunk int) *BatchStats
 		dbg("batch %d: generated %d packages in %v", start/chunk, len(jobs), time.Since(t0))
 		healthy := map[int]bool{}
 		unhealthy := map[int]string{}
+		unhealthyMsg := map[int]string{}
 		for k, r := range results {
 			if r.Outcome == "internal" {
 				internal("generate %s: %s", part[refs[k].state].ID, r.Msg)
@@ -80,6 +83,13 @@ func RunBatch(run *report.Run, env *Env, states []BState, chunk int) *BatchStats
 				}
 				if _, done := unhealthy[refs[k].state]; !done {
 					unhealthy[refs[k].state] = why
+					msg := r.Msg
+					if len(r.TypeErr) > 0 {
+						msg = r.TypeErr[0]
+					} else if len(r.SyntaxErr) > 0 {
+						msg = r.SyntaxErr[0]
+					}
+					unhealthyMsg[refs[k].state] = msg
 				}
 				os.RemoveAll(jobs[k].OutDir)
 			}
@@ -89,6 +99,7 @@ func RunBatch(run *report.Run, env *Env, states []BState, chunk int) *BatchStats
 			if why, bad := unhealthy[i]; bad {
 				st.Masked++
 				st.MaskedWhy[why]++
+				noteMasked(run, part[i], why, unhealthyMsg[i])
 				// remove the twin as well
 				os.RemoveAll(batch.PkgDir(root, fmt.Sprintf("p%05d", start+i)))
 				os.RemoveAll(batch.PkgDir(root, fmt.Sprintf("p%05db", start+i)))
@@ -187,4 +198,55 @@ func dbg(format string, a ...any) {
 	if os.Getenv("VERIF_DEBUG") != "" {
 		fmt.Fprintf(os.Stderr, format+"\n", a...)
 	}
+}
+
+// ---- states that cannot be observed ---------------------------------------------------------------------
+//
+// A state whose package does not generate or does not compile cannot be driven; on the unchanged tree
+// these are the states behind C01's known findings and they are listed in masked_baseline.jsonl (written
+// by tools/mkmasked.sh, never at check time). A state that is unobservable WITHOUT being listed is a
+// violation of the property under check: no behaviour at all exists where the unchanged tree has one.
+
+var (
+	maskedOnce     sync.Once
+	maskedBaseline map[string]bool
+)
+
+func maskedKey(prop, id string) string { return prop + "\x00" + id }
+
+func noteMasked(run *report.Run, s BState, why, msg string) {
+	maskedOnce.Do(func() {
+		maskedBaseline = map[string]bool{}
+		bs, err := os.ReadFile(filepath.Join(report.VerifDir, "masked_baseline.jsonl"))
+		if err != nil {
+			return
+		}
+		for _, l := range strings.Split(string(bs), "\n") {
+			var e struct{ Check, State string }
+			if json.Unmarshal([]byte(l), &e) == nil && e.Check != "" {
+				maskedBaseline[maskedKey(e.Check, e.State)] = true
+			}
+		}
+	})
+	if fn := os.Getenv("VERIF_MASKED_OUT"); fn != "" {
+		if f, err := os.OpenFile(fn, os.O_APPEND|os.O_CREATE|os.O_WRONLY, 0o644); err == nil {
+			bs, _ := json.Marshal(map[string]string{"check": s.Prop, "state": s.ID, "why": why})
+			f.Write(append(bs, '\n'))
+			f.Close()
+		}
+		return
+	}
+	if maskedBaseline[maskedKey(s.Prop, s.ID)] {
+		return
+	}
+	sa := map[string]string{}
+	for k, x := range s.Attrs {
+		if k == "kind" {
+			k = "skind"
+		}
+		sa[k] = x
+	}
+	attrs := mergeAttrs(sa, map[string]string{"kind": "state-unobservable", "why": why, "diagclass": DiagClass(msg)})
+	run.Violate(&report.Violation{Attrs: attrs, State: s.ID, Observed: "the package generated for this state cannot be driven (" + why + "): " + trunc(msg, 300),
+		Expected: "a package that generates and compiles, as on the unchanged tree (the state is not among those listed as unobservable in masked_baseline.jsonl)", Detail: map[string]any{"job": s.Gen}})
 }
